@@ -54,8 +54,12 @@ type YReply struct {
 	Count int
 }
 
-// Conn is the model's state of one connection.
+// Conn is the model's state of one connection. A key that is connected again
+// after an earlier connection ended (re-dial, the station calling in again)
+// gets a new Conn: every incarnation keeps its own record.
 type Conn struct {
+	// ID numbers the incarnations of a session in creation order.
+	ID      int
 	Key     ConnKey
 	Inbound bool
 	Via     []string
@@ -119,16 +123,19 @@ type Session struct {
 	c    *pipe.End
 	Link *pipe.Link
 
-	mu       sync.Mutex
-	parser   Parser
-	recv     []Recv
-	regs     map[byte][]string // port -> registered calls
-	regTried map[string]bool   // "port/call" -> an 'X' was seen
-	regOK    map[string]bool
-	conns    map[ConnKey]*Conn
-	order    []ConnKey
-	replyIdx int
-	monitor  bool
+	mu         sync.Mutex
+	parser     Parser
+	recv       []Recv
+	regs       map[byte][]string // port -> registered calls
+	regTried   map[string]bool   // "port/call" -> an 'X' was seen
+	regOK      map[string]bool
+	conns      map[ConnKey]*Conn // latest incarnation per key
+	order      []ConnKey
+	all        []*Conn // every incarnation, in creation order
+	connectFor map[ConnKey]connectPolicy
+	pending    int // transmissions scheduled but not written yet
+	replyIdx   int
+	monitor    bool
 
 	framingErr string // the stream could not be followed any further
 	truncErr   string // the stream ended inside a frame
@@ -213,6 +220,47 @@ func (s *Session) text(format string, a ...any) []byte {
 	return b
 }
 
+// addConn (lock held) registers a new incarnation for c.Key.
+func (s *Session) addConn(c *Conn) {
+	c.ID = len(s.all)
+	s.all = append(s.all, c)
+	if _, seen := s.conns[c.Key]; !seen {
+		s.order = append(s.order, c.Key)
+	}
+	s.conns[c.Key] = c
+}
+
+// later schedules a transmission of the model after d and keeps count of the
+// transmissions that are still to come (see Busy).
+func (s *Session) later(d time.Duration, f func()) {
+	s.mu.Lock()
+	s.pending++
+	s.mu.Unlock()
+	s.sim.At(d, func() {
+		s.mu.Lock()
+		s.pending--
+		s.mu.Unlock()
+		f()
+	})
+}
+
+// SetConnect changes how the model answers the connect requests for k that
+// arrive from now on ("accept", "refuse", "silent") and after how long. Keys
+// without such a setting follow Config.Connect / Config.ConnectLatMs.
+func (s *Session) SetConnect(k ConnKey, mode string, latMs int) {
+	s.mu.Lock()
+	if s.connectFor == nil {
+		s.connectFor = map[ConnKey]connectPolicy{}
+	}
+	s.connectFor[k] = connectPolicy{mode, latMs}
+	s.mu.Unlock()
+}
+
+type connectPolicy struct {
+	mode  string
+	latMs int
+}
+
 // write puts bytes on the TNC->host stream now. Callers are already on an
 // environment instant (sim.At callback or the session goroutine).
 func (s *Session) write(b []byte) {
@@ -227,7 +275,7 @@ func (s *Session) reply(f Frame) {
 	s.mu.Lock()
 	d := s.lat()
 	s.mu.Unlock()
-	s.sim.At(d, func() {
+	s.later(d, func() {
 		s.sim.Logf("tnc> %v", f)
 		s.write(f.Encode())
 	})
@@ -316,7 +364,7 @@ func (s *Session) handle(p Parsed) {
 				cb(k)
 			}
 			if ack {
-				s.sim.At(lat, func() {
+				s.later(lat, func() {
 					fr := Frame{Port: k.Port, Kind: 'd', From: k.Remote, To: k.Local, Data: s.text("*** DISCONNECTED From Station %s\r", k.Remote)}
 					s.sim.Logf("tnc> %v (ack)", fr)
 					s.write(fr.Encode())
@@ -372,7 +420,7 @@ func (s *Session) handle(p Parsed) {
 		hdr := f
 		d := s.lat()
 		after = func() {
-			s.sim.At(d, func() {
+			s.later(d, func() {
 				s.mu.Lock()
 				n := 0
 				if c != nil {
@@ -438,17 +486,18 @@ func (s *Session) handleConnect(r *Recv) func() {
 			}
 		}
 	}
-	if _, seen := s.conns[k]; !seen {
-		s.order = append(s.order, k)
+	s.addConn(c)
+	mode, latMs := s.cfg.Connect, s.cfg.ConnectLatMs
+	if pol, ok := s.connectFor[k]; ok {
+		mode, latMs = pol.mode, pol.latMs
 	}
-	s.conns[k] = c
-	lat := time.Duration(s.cfg.ConnectLatMs)*time.Millisecond + s.jit()
-	switch s.cfg.Connect {
+	lat := time.Duration(latMs)*time.Millisecond + s.jit()
+	switch mode {
 	case "silent":
 		return nil
 	case "refuse":
 		return func() {
-			s.sim.At(lat, func() {
+			s.later(lat, func() {
 				s.mu.Lock()
 				if c.State != "connecting" {
 					s.mu.Unlock()
@@ -464,7 +513,7 @@ func (s *Session) handleConnect(r *Recv) func() {
 		}
 	}
 	return func() {
-		s.sim.At(lat, func() {
+		s.later(lat, func() {
 			s.mu.Lock()
 			if c.State != "connecting" {
 				s.mu.Unlock()
